@@ -3,6 +3,8 @@ package main
 import (
 	"strings"
 
+	"github.com/dolthub/go-mysql-server/sql/mysql_db"
+
 	"verif/harness/core"
 	"verif/harness/g11lib"
 )
@@ -25,16 +27,16 @@ func pinned(r *core.Run) {
 			setup: []string{"CREATE USER pu1", "CREATE ROLE pr1", "CREATE ROLE pr2", "GRANT SELECT ON d.t1 TO pr1", "GRANT pr1 TO pr2", "GRANT pr2 TO pu1"},
 			who:   "pu1", sql: "SELECT id FROM d.t1", want: g11lib.OutOK},
 		{sig: "stmt-on-missing-account-applied-to-host-pattern-match:grant",
-			what:  "GRANT … TO 'pu2'@'localhost' (no such account) is applied to 'pu2'@'%'",
-			setup: []string{"CREATE USER 'pu2'@'%'", "GRANT SELECT ON d2.* TO 'pu2'@'localhost'"},
+			what:     "GRANT … TO 'pu2'@'localhost' (no such account) is applied to 'pu2'@'%'",
+			setup:    []string{"CREATE USER 'pu2'@'%'", "GRANT SELECT ON d2.* TO 'pu2'@'localhost'"},
 			grantsOf: "pu2", fragment: "`d2`", mustContain: false},
 		{sig: "stmt-on-missing-account-applied-to-host-pattern-match:drop-user",
-			what:  "DROP USER 'pu3'@'localhost' (no such account) drops 'pu3'@'%'",
-			setup: []string{"CREATE USER 'pu3'@'%'", "DROP USER 'pu3'@'localhost'"},
+			what:     "DROP USER 'pu3'@'localhost' (no such account) drops 'pu3'@'%'",
+			setup:    []string{"CREATE USER 'pu3'@'%'", "DROP USER 'pu3'@'localhost'"},
 			grantsOf: "pu3", fragment: "USAGE", mustContain: true},
 		{sig: "stmt-on-missing-account-applied-to-host-pattern-match:grant-role",
-			what:  "GRANT role TO 'pu4'@'localhost' (no such account) is applied to 'pu4'@'%'",
-			setup: []string{"CREATE USER 'pu4'@'%'", "CREATE ROLE pr4", "GRANT pr4 TO 'pu4'@'localhost'"},
+			what:     "GRANT role TO 'pu4'@'localhost' (no such account) is applied to 'pu4'@'%'",
+			setup:    []string{"CREATE USER 'pu4'@'%'", "CREATE ROLE pr4", "GRANT pr4 TO 'pu4'@'localhost'"},
 			grantsOf: "pu4", fragment: "pr4", mustContain: false},
 		{sig: "revoke-all-privileges-keeps-lower-levels",
 			what:  "REVOKE ALL PRIVILEGES, GRANT OPTION FROM u leaves u's database/table/routine grants in place",
@@ -57,12 +59,12 @@ func pinned(r *core.Run) {
 			setup: []string{"CREATE USER pu10", "GRANT DELETE ON d.* TO pu10 WITH GRANT OPTION"},
 			who:   "pu10", sql: "GRANT DELETE ON *.* TO 'sink'@'%'", want: g11lib.OutDenied},
 		{sig: "show-grants:role-edge-duplicated-by-regrant-with-other-admin-option",
-			what:  "granting a role again with a different ADMIN OPTION adds a second role edge (SHOW GRANTS lists the role twice)",
-			setup: []string{"CREATE USER pu11", "CREATE ROLE pr11", "GRANT pr11 TO pu11 WITH ADMIN OPTION", "GRANT pr11 TO pu11"},
+			what:     "granting a role again with a different ADMIN OPTION adds a second role edge (SHOW GRANTS lists the role twice)",
+			setup:    []string{"CREATE USER pu11", "CREATE ROLE pr11", "GRANT pr11 TO pu11 WITH ADMIN OPTION", "GRANT pr11 TO pu11"},
 			grantsOf: "pu11", fragment: "`pr11`@`%`, `pr11`@`%`", mustContain: false},
 		{sig: "routine-grant-with-grant-option-dropped",
-			what:  "GRANT EXECUTE ON PROCEDURE d.p1 TO u WITH GRANT OPTION does not record the GRANT OPTION",
-			setup: []string{"CREATE USER pu12", "GRANT EXECUTE ON PROCEDURE d.p1 TO pu12 WITH GRANT OPTION"},
+			what:     "GRANT EXECUTE ON PROCEDURE d.p1 TO u WITH GRANT OPTION does not record the GRANT OPTION",
+			setup:    []string{"CREATE USER pu12", "GRANT EXECUTE ON PROCEDURE d.p1 TO pu12 WITH GRANT OPTION"},
 			grantsOf: "pu12", fragment: "WITH GRANT OPTION", mustContain: true},
 		{sig: "delete-without-where-needs-trigger-privilege",
 			what: "DELETE FROM t without WHERE is refused to a holder of DELETE when any trigger exists in the current database (TRIGGER on the triggered table is demanded)",
@@ -92,6 +94,32 @@ func pinned(r *core.Run) {
 		}
 		f.Close()
 		r.Pinned(p.sig, p.what+" ("+obs+")", failed, map[string]any{"setup_as_root": p.setup, "observation": obs})
+		r.Count("pinned.replayed", 1)
+	}
+	// An existing account named with host 127.0.0.1 is resolved through the login matcher as well (127.0.0.1 is rewritten
+	// to localhost before the exact lookup), so the statement lands on an earlier account of that name whose pattern
+	// matches. Observed by exact key through the Reader (every SQL observation goes through the same resolver).
+	{
+		f := g11lib.NewFix(nil)
+		setup := []string{"CREATE USER 'pu13'@'127.0.%'", "CREATE USER 'pu13'@'127.0.0.1'", "GRANT SELECT ON d.t1 TO 'pu13'@'127.0.0.1'"}
+		for _, q := range setup {
+			f.Root.Exec(q)
+		}
+		rd := f.Mdb.Reader()
+		named, _ := rd.GetUser(mysql_db.UserPrimaryKey{Host: "127.0.0.1", User: "pu13"})
+		other, _ := rd.GetUser(mysql_db.UserPrimaryKey{Host: "127.0.%", User: "pu13"})
+		obs := "accounts missing"
+		failed := true
+		if named != nil && other != nil {
+			n, o := g11lib.PrivSetText(named.PrivilegeSet), g11lib.PrivSetText(other.PrivilegeSet)
+			obs = "'pu13'@'127.0.0.1': " + n + " ; 'pu13'@'127.0.%': " + o
+			failed = !strings.Contains(n, "d.t1{SELECT}") || strings.Contains(o, "d.t1{SELECT}")
+		}
+		rd.Close()
+		f.Close()
+		r.Pinned("stmt-on-127.0.0.1-account-applied-to-earlier-pattern-account",
+			"GRANT … TO 'pu13'@'127.0.0.1' (an existing account) is applied to 'pu13'@'127.0.%' created before it ("+obs+")", failed,
+			map[string]any{"setup_as_root": setup, "observation": obs})
 		r.Count("pinned.replayed", 1)
 	}
 }
